@@ -20,13 +20,15 @@ PLAN = {
     "C01": dict(export="Export_C01", parts=[("m", dict(flags=ALL4, spellings=[{}, {"ints": True}])),   # ints differ only in the thorough universe
                                             ("c", dict(flags=ALL4))],
                 mc=[("MC_C01", {"quick": "MC_C01_quick.cfg", "thorough": "MC_C01_thorough.cfg"})]),
-    "C02": dict(export="Export_C02", parts=[("m", dict(flags=FF, spellings=[{"times": "body"}, {"times": "sib"}])),
+    "C02": dict(export="Export_C02", parts=[("m", dict(flags=FF, spellings=[{"times": "body"}, {"times": "sib"}, {"times": "sib", "alias": True},
+                                                                            {"times": "body", "alias": True}])),
                                             ("f", dict(flags=[(True, False), (True, True)], spellings=[{"times": "body"}, {"times": "sib"}]))],
                 mc=[("MC_Compile", {"quick": "MC_Compile_times_quick.cfg", "thorough": "MC_Compile_times_thorough.cfg"}), ("MC_Compile", {"quick": "MC_Compile_control.cfg", "thorough": "MC_Compile_control.cfg"}, "must_fail"), ("MC_C02", {"quick": "MC_C02_quick.cfg", "thorough": "MC_C02_thorough.cfg"})]),
     "C03": dict(export="Export_C03", parts=[("i", dict(flags=FF)), ("o", dict(flags=[(False, False), (False, True)])),
-                                            ("d", dict(flags=ALL4))],
+                                            ("d", dict(flags=ALL4)), ("w", dict(flags=FF))],
                 mc=[("MC_Compile", {"quick": "MC_Compile_groups_quick.cfg", "thorough": "MC_Compile_groups_thorough.cfg"}), ("MC_C03", {"quick": "MC_C03_quick.cfg", "thorough": "MC_C03_thorough.cfg"})]),
-    "C04": dict(export="Export_C04", parts=[("i", dict(flags=FF)), ("o", dict(flags=[(False, False), (False, True)]))],
+    "C04": dict(export="Export_C04", parts=[("i", dict(flags=FF)), ("o", dict(flags=[(False, False), (False, True)])),
+                                            ("f", dict(flags=ALL4))],
                 mc=[("MC_Compile", {"quick": "MC_Compile_not_quick.cfg", "thorough": "MC_Compile_not_thorough.cfg"}), ("MC_C04", {"quick": "MC_C04_quick.cfg", "thorough": "MC_C04_thorough.cfg"})]),
     "C05": dict(export="Export_C05", parts=[("i", dict(flags=[(False, False), (True, True)])),
                                             ("o", dict(flags=[(False, False), (True, True)])),
@@ -73,6 +75,8 @@ def run_part(report, prop, key, u, opts, tier):
                         raise MachineryError(f"render.py and JasmSyntax!Unparse disagree on {P}: "
                                              f"{doc['pattern']} vs {tlc_docs[pi][skey]}")
                     doc["pattern"] = tlc_docs[pi][skey]       # the document the real code reads is TLC's
+                    if sp.get("alias"):
+                        doc = render.share_equal(doc)         # equal subtrees written once: YAML anchor + alias
                     text = render.dump_yaml(doc)
                     if (pi, text) in seen_docs:
                         continue
@@ -198,7 +202,10 @@ def run_witnesses(report, prop):
 
 def check_single(report, w, name):
     P, L = w["pattern"], w["listing"]
-    text = render.dump_yaml(render.rule_doc(P, w.get("mfm", False), w.get("ofm", False), opt=w.get("spelling") or {}))
+    doc = render.rule_doc(P, w.get("mfm", False), w.get("ofm", False), opt=w.get("spelling") or {})
+    if (w.get("spelling") or {}).get("alias"):
+        doc = render.share_equal(doc)
+    text = render.dump_yaml(doc)
     jr = {"id": 0, "yaml": text}
     if w.get("macros"):
         jr["macro_paths"] = w["macros"]
